@@ -121,6 +121,7 @@ def prepare():
         fcntl.flock(lock, fcntl.LOCK_EX)
         text, status = gen.generate(REPO)
         b.translator = status
+        from harness.translate import tie; b.translator.update(tie.write(REPO, THEORIES))  # noqa: E401,E702  balance.py / computed_data.py tables -> Model/GeneratedTie.v
         _write_if_changed(os.path.join(THEORIES, "Model", "Generated.v"), text)
         vfiles = all_v_files()
         # dependency order is computed by coqdep; only the file list matters here
